@@ -211,6 +211,18 @@ def run_scenario(sc, base, repo, harness):
                 pass
         elif "write" in a:
             (ctl / a["write"][0]).write_text(a["write"][1])
+        elif "silent_server" in a:
+            # a TCP port that accepts connections (kernel backlog) and never answers
+            import socket
+            sk = socket.socket(socket.AF_INET, socket.SOCK_STREAM)
+            sk.bind(("127.0.0.1", 0))
+            sk.listen(16)
+            servers[a["silent_server"]] = sk
+            (ctl / a["silent_server"]).write_text(f"http://127.0.0.1:{sk.getsockname()[1]}/notify")
+        elif "close_server" in a:
+            sk = servers.pop(a["close_server"], None)
+            if sk is not None:
+                sk.close()
         elif "signal_log" in a:
             # send a signal to every process whose pid matches group 1 of the pattern in the log
             pat, sig = a["signal_log"]
@@ -222,9 +234,29 @@ def run_scenario(sc, base, repo, harness):
 
     script = sc["script"]
     timed_out = False
+    servers = {}
+    lock_inodes = {}        # lock file -> inode when first seen: the file that carries the run lock must stay the same
+    lock_changes = []
+
+    def watch_locks():
+        for lf in (ws / "jobs").glob("*/*/*.lock"):
+            try:
+                ino = lf.stat().st_ino
+            except OSError:
+                continue
+            k = str(lf.relative_to(ws))
+            if k not in lock_inodes:
+                lock_inodes[k] = ino
+            elif lock_inodes[k] != ino and (k, "replaced") not in lock_changes:
+                lock_changes.append((k, "replaced"))
+        for k in lock_inodes:
+            if not (ws / k).exists() and (k, "removed") not in lock_changes:
+                lock_changes.append((k, "removed"))
+
     while True:
         now = time.time()
         text = log_text()
+        watch_locks()
         for i, e in enumerate(script):
             if i not in fired and cond(e["when"], now, text):
                 act(e["do"])
@@ -248,6 +280,11 @@ def run_scenario(sc, base, repo, harness):
                                                   {int(m.group(1)) for m in re.finditer(r"pid=(\d+)", _t)}) if pid_alive(x)]
     out["latch_open"] = (ctl / "latch.all").exists()
     out["unfired"] = [i for i, e in enumerate(script) if i not in fired and not e.get("optional")]
+    for sk in servers.values():
+        sk.close()
+    servers.clear()
+    watch_locks()
+    out["lock_changes"] = lock_changes
     # let everything that is still there finish, then make sure nothing survives the scenario
     (ctl / "latch.all").touch()
     text = log_text()
